@@ -204,8 +204,10 @@ template <class G> void checkC11(const G &g, const Model &m, Fail &f) {
         // all geodesics
         auto allFrom = algorithms::findAllGeodesicsFromVertex(g, s);
         if (allFrom.size() != n) f.add("c11.allpaths", "findAllGeodesicsFromVertex returned " + std::to_string(allFrom.size()) + " entries, " + where);
+        std::vector<std::vector<unsigned>> firstSingle(n);
         for (unsigned t = 0; t < n; ++t) {
             auto p = algorithms::findGeodesics(g, s, t);
+            firstSingle[t].assign(p.begin(), p.end());
             std::string e = validPath(p, t);
             if (!e.empty()) f.add("c11.path", "findGeodesics(" + std::to_string(s) + "," + std::to_string(t) + "): " + e + ", on " + m.str());
             if (fromV.size() == n) {
@@ -235,6 +237,31 @@ template <class G> void checkC11(const G &g, const Model &m, Fail &f) {
             if (allFrom.size() == n) {
                 auto got2 = canonAll(allFrom[t]);
                 if (got2 != want) f.add("c11.allpaths", "findAllGeodesicsFromVertex(" + std::to_string(s) + ")[" + std::to_string(t) + "] returned " + show(got2) + ", expected exactly " + show(want) + ", on " + m.str());
+            }
+        }
+        // The answers are a function of (graph, source, destination): calls that are REJECTED in between - a path
+        // asked from a predecessor table to a vertex the source does not reach, a vertex index outside the graph -
+        // must not change what the next search returns.
+        std::string rejected;
+        for (unsigned t = 0; t < n; ++t)
+            if (d[t] == Ref::INF) {
+                try { (void)algorithms::findPathToVertexFromPredecessors(g, s, t, sp); } catch (...) { rejected += " findPathToVertexFromPredecessors(" + std::to_string(s) + "," + std::to_string(t) + ")"; }
+                try { (void)algorithms::findMultiplePathsToVertexFromPredecessors(g, s, t, ap); } catch (...) { rejected += " findMultiplePathsToVertexFromPredecessors(" + std::to_string(s) + "," + std::to_string(t) + ")"; }
+            }
+        try { (void)algorithms::findGeodesics(g, s, n); } catch (...) { rejected += " findGeodesics(" + std::to_string(s) + "," + std::to_string(n) + ")"; }
+        try { (void)algorithms::findAllGeodesics(g, n, s); } catch (...) { rejected += " findAllGeodesics(" + std::to_string(n) + "," + std::to_string(s) + ")"; }
+        for (unsigned t = 0; t < n; ++t) {
+            auto p = algorithms::findGeodesics(g, s, t);
+            std::vector<unsigned> again(p.begin(), p.end());
+            std::string e = validPath(p, t);
+            if (!e.empty() || again != firstSingle[t])
+                f.add("c11.path", "findGeodesics(" + std::to_string(s) + "," + std::to_string(t) + ") called again after the rejected calls [" + rejected + " ] returned " + seqStr(again) + (e.empty() ? "" : " (" + e + ")") + "; the first call returned " + seqStr(firstSingle[t]) + ", on " + m.str());
+            if (d[t] != Ref::INF) {
+                try {
+                    auto q = algorithms::findPathToVertexFromPredecessors(g, s, t, sp);
+                    e = validPath(q, t);
+                    if (!e.empty()) f.add("c11.path", "findPathToVertexFromPredecessors(" + std::to_string(s) + "," + std::to_string(t) + ") after the rejected calls [" + rejected + " ]: " + e + ", on " + m.str());
+                } catch (...) { f.add("c11.path", "findPathToVertexFromPredecessors(" + std::to_string(s) + "," + std::to_string(t) + ") threw for a reachable destination, on " + m.str()); }
             }
         }
     }
